@@ -133,3 +133,35 @@ def get():
     if _ROOM is not None and _ROOM.owner == os.getpid():
         return _ROOM
     return None
+
+
+def fresh_interpreter_call(module, function, payload, hashseed, timeout=120):
+    """Runs module.function(payload) in a NEW interpreter started with another PYTHONHASHSEED (a forked clean room inherits
+    the hash salt of its parent, so anything derived from `hash()` of a str / bytes agrees with the parent by construction).
+    Returns ("ok", value) or ("err", text)."""
+    import subprocess
+    import sys
+    verif = os.path.dirname(os.path.dirname(os.path.abspath(__file__)))
+    repo = os.environ.get("GEMSIM_REPO", "/repo")
+    boot = ("import sys, pickle, importlib\n"
+            f"sys.path[:0] = [{verif!r}, {repo!r}]\n"
+            "mod, fn, payload = pickle.load(sys.stdin.buffer)\n"
+            "try:\n"
+            "    out = ('ok', getattr(importlib.import_module(mod), fn)(payload))\n"
+            "except BaseException as e:\n"
+            "    out = ('err', type(e).__name__ + ': ' + str(e))\n"
+            "sys.__stdout__.buffer.write(b'@@RESULT@@' + pickle.dumps(out))\n"
+            "sys.__stdout__.buffer.flush()\n")
+    env = dict(os.environ)
+    env["PYTHONHASHSEED"] = str(int(hashseed))
+    for k in ("OMP_NUM_THREADS", "OPENBLAS_NUM_THREADS", "MKL_NUM_THREADS"):
+        env[k] = "1"
+    try:
+        p = subprocess.run([sys.executable, "-c", boot], input=pickle.dumps((module, function, payload)), env=env,
+                           stdout=subprocess.PIPE, stderr=subprocess.DEVNULL, timeout=timeout)
+    except Exception as e:
+        return "err", f"fresh interpreter failed: {type(e).__name__}: {e}"
+    i = p.stdout.rfind(b"@@RESULT@@")
+    if i < 0:
+        return "err", f"fresh interpreter gave no result (rc={p.returncode})"
+    return pickle.loads(p.stdout[i + 10:])
